@@ -59,7 +59,9 @@ THEOREMS = {
     "C17": {
         "modules": ["Abnf.Theorems.C17"],
         "theorems": ["Abnf.C17.interference_safe", "Abnf.C17.interference_safe_lru", "Abnf.C17.request_is_admissible_interference",
-                     "Abnf.advOps_sound"],
+                     "Abnf.advOps_sound", "Abnf.run_lparseP", "Abnf.safe_of_universal", "Abnf.step_safe", "Abnf.schedule_safe",
+                     "Abnf.C17.request_safe", "Abnf.C17.interleaved_requests_sequential", "Abnf.C17.schedule_keeps_expected",
+                     "Abnf.C17.interleaved_requests_sequential_lru", "Abnf.C17.request_after_interleaving"],
     },
     "C10": {
         "modules": ["Abnf.Theorems.C10"],
